@@ -108,3 +108,14 @@ package types
 //@ func Transaction.Size
 //@   trusted
 //@   assigns nothing
+
+// ---- bloom lookup as an observer (C16) -----------------------------------------------------------
+// Trusted: the membership test is a function of the bloom and of the key's bytes; keys of
+// different kinds (20-byte address, 32-byte hash, big integer with leading zeros stripped) are
+// different keys.
+//@ func BloomLookup
+//@   trusted
+//@   ensures typeis(topic, "common.Address") ==> result == bloomhasaddr(bin, unbox(topic, "common.Address"))
+//@   ensures typeis(topic, "common.Hash") ==> result == bloomhashash(bin, unbox(topic, "common.Hash"))
+//@   ensures typeis(topic, "*big.Int") ==> result == bloomhasbig(bin, big(unbox(topic, "*big.Int")))
+//@   assigns nothing
